@@ -330,11 +330,10 @@ class Sched:
             finally:
                 cur.pred = None
                 cur.deadline = None
+                cur.state = RUNNABLE      # running again: a predicate may itself contain a scheduling point
             if pred():
-                cur.state = RUNNABLE
                 return True
             if cur.timed_out:
-                cur.state = RUNNABLE
                 return False
 
     def sleep(self, d):
@@ -484,14 +483,17 @@ class SimFuture(concurrent.futures.Future):
             s.query_yield()
         return r
 
+    def _raw_done(self):
+        return concurrent.futures.Future.done(self)
+
     def result(self, timeout=None):
         if not self.done():
-            self._s.block_until(self.done, what='future')
+            self._s.block_until(self._raw_done, what='future')
         return super().result(0)
 
     def exception(self, timeout=None):
         if not self.done():
-            self._s.block_until(self.done, what='future')
+            self._s.block_until(self._raw_done, what='future')
         return super().exception(0)
 
 
@@ -546,9 +548,10 @@ def sim_as_completed(s):
         fs = list(fs)
         done = set()
         while len(done) < len(fs):
-            s.block_until(lambda: any(f.done() and id(f) not in done for f in fs), what='as_completed')
+            raw = concurrent.futures.Future.done
+            s.block_until(lambda: any(raw(f) and id(f) not in done for f in fs), what='as_completed')
             for f in fs:
-                if f.done() and id(f) not in done:
+                if raw(f) and id(f) not in done:
                     done.add(id(f))
                     yield f
     return as_completed
